@@ -580,12 +580,18 @@ class StoreEndToEnd(Case):
                 store = stom.PandasStore(st.run(config))
                 if values["rollup"]:
                     store.compute_aggregate(name="rollup")
-                out = store.save(write_data=values["write_data"], write_axes=values["write_axes"])
+                inc, exc = values.get("include"), values.get("exclude")
+                out = store.save(write_data=values["write_data"], write_axes=values["write_axes"], include=inc, exclude=exc)
         except Exception as e:  # noqa: BLE001
             return "%s raised %r" % (values, e)
         finally:
             logging.disable(logging.NOTSET)
-        if len(out) != n:
+        def passes(stream, test):
+            keys = {stream, test}
+            return (inc is None or bool(keys & set(inc))) and not (exc is not None and bool(keys & set(exc)))
+
+        kept_any = values["write_axes"] or any(passes("v", t_) for t_ in ("gross_range_test", "spike_test")) or (values["rollup"] and passes("", "rollup"))
+        if len(out) != n and kept_any:
             return "%d rows in the saved frame for %d input rows" % (len(out), n)
         rows = [i for i in range(n) if (not win) or (win[0] <= secs[i] < win[1])]
         exp = {}
@@ -595,6 +601,12 @@ class StoreEndToEnd(Case):
             exp["v_qartod_spike_test"] = qm.spike_test(v[rows], suspect_threshold=10, fail_threshold=30)
         cols = {}
         for name, fl in exp.items():
+            want = {i: int(f) for i, f in zip(rows, np.ma.filled(np.ma.masked_array(fl), 255).tolist())}
+            cols[name] = [want.get(i) for i in range(n)]
+            if not passes("v", name[len("v_qartod_"):]):
+                if name in out.columns:
+                    return "column %s present although the include/exclude lists drop it (include=%r exclude=%r)" % (name, inc, exc)
+                continue
             if name not in out.columns:
                 return "no column %s in %s" % (name, list(out.columns))
             col = out[name].to_numpy()
@@ -606,8 +618,7 @@ class StoreEndToEnd(Case):
                     return "column %s row %d holds %r, the direct call gives %d" % (name, i, got, want[i])
                 if i not in want and present:
                     return "column %s row %d (not evaluated) holds %r" % (name, i, got)
-            cols[name] = [want.get(i) for i in range(n)]
-        if values["write_data"]:
+        if values["write_data"] and (passes("v", "gross_range_test") or passes("v", "spike_test")):
             if "v" not in out.columns:
                 return "no data column"
             d = out["v"].to_numpy()
@@ -617,12 +628,15 @@ class StoreEndToEnd(Case):
         if values["write_axes"]:
             for name, src in (("time", t), ("z", z), ("lat", z + 1), ("lon", z + 2)):
                 if name not in out.columns:
-                    return "no axis column %s" % name
+                    return "write_axes: no axis column %s (columns %s, include=%r exclude=%r)" % (name, list(out.columns), inc, exc)
                 a = out[name].to_numpy()
                 for i in rows:
                     if not (a[i] == src[i]):
                         return "axis column %s row %d holds %r, source %r" % (name, i, a[i], src[i])
-        if values["rollup"]:
+        if values["rollup"] and not passes("", "rollup"):
+            if any(c_.endswith("rollup") for c_ in out.columns):
+                return "roll-up column present although the lists drop it"
+        elif values["rollup"]:
             names = [c_ for c_ in out.columns if c_.endswith("rollup")]
             if len(names) != 1:
                 return "roll-up columns: %r" % names
@@ -643,6 +657,13 @@ class StoreEndToEnd(Case):
                         for ru in ((False, True) if (wd and wa) else (False,)):
                             v = {"front": front, "index": index, "window": window, "write_data": wd, "write_axes": wa, "rollup": ru}
                             yield ("saved-frame", "saved-frame", v, (lambda v=v: self.one(v)))
+        # include / exclude lists together with write_axes / write_data / the roll-up: the axes come with the frame
+        # whatever the lists keep
+        for front, index in (("numpy", "default"), ("pandas", "offset")):
+            for inc, exc in ((["rollup"], None), (["spike_test"], None), (["zzz"], None), (None, ["gross_range_test"]), (None, ["v"]), (["v"], ["spike_test"])):
+                for wd, wa in ((False, True), (True, True), (True, False)):
+                    v = {"front": front, "index": index, "window": None, "write_data": wd, "write_axes": wa, "rollup": True, "include": inc, "exclude": exc}
+                    yield ("saved-frame", "saved-frame", v, (lambda v=v: self.one(v)))
 
     def replay_bounded(self, label, values):
         return self.one(values)
